@@ -201,3 +201,45 @@ def cmp_holds(facts, op, pa, pb):
 
 def bare(facts):
     return [f[2] if (len(f) == 3 and isinstance(f[2], tuple) and f[2] and f[2][0] in ("cmp", "variant", "truth", "int")) else f for f in facts]
+
+
+def path_edge_facts(body, path, i):
+    """facts of the edge path[i] -> path[i+1], path-sensitively: when the switched boolean local is assigned in several
+    branches (`opt.map_or(true, |x| x <= y)` after desugaring, `let c = if .. {..} else {..}`), the definition that was
+    executed on this path is used instead of the join of all of them."""
+    s, t = path[i], path[i + 1]
+    fs = edge_facts(body, s, t)
+    term = body.term(s)
+    if term["k"] != "switch" or term["on"]["k"] not in ("copy", "move") or term["on"]["place"]["proj"]:
+        return fs
+    if not any(f[0] == "truth" and f[1][0] == "phi" for f in fs):
+        return fs
+    l = term["on"]["place"]["l"]
+    pos = {blk: k for k, blk in enumerate(path[:i + 1])}
+    whole, _ = body.defs
+    best = None
+    for _ in range(4):
+        ds = [(pos[loc[0]], loc, kind, payload) for loc, kind, payload in whole.get(l, []) if loc[0] in pos]
+        if not ds:
+            return fs
+        ds.sort(key=lambda x: (x[0], x[1][1]))
+        p, loc, kind, payload = ds[-1]
+        if kind == "assign" and payload["k"] == "use" and payload["op"]["k"] in ("copy", "move") and not payload["op"]["place"]["proj"]:
+            l = payload["op"]["place"]["l"]   # a plain move of another bool local: follow it on the same path
+            continue
+        best = (loc, kind, payload)
+        break
+    if best is None:
+        return fs
+    loc, kind, payload = best
+    e = body.expr_of_rv(payload, 10, (), loc) if kind == "assign" else body.expr_of_call(payload, 10, (), loc)
+    # which value does this edge stand for?
+    val = None
+    for f in fs:
+        if f[0] == "truth":
+            val = f[2]
+    if val is None:
+        return fs
+    if e[0] == "const":
+        return [("truth", e, val)] if (str(e[2]).startswith("true") == val or (e[3] is not None and bool(e[3]) == val)) else [("infeasible",)]
+    return bool_facts(e, val)
